@@ -239,24 +239,27 @@ def _work_direct_exhaustive(args):
 
 
 def gen_sq(rng):
+    """Entries: [0,v] item, [1,id] pending future (id % 4: 1 rejected, 3 cancelled, else fulfilled when
+    waited for), [2,v] fulfilled future, [3,id] rejected future, [7,id] cancelled future; terminal [4] end,
+    [5] the source raises (the queue then cancels the pending futures), [6] the producer never finishes."""
     n = rng.randint(0, 6)
     entries = []
     nid = 0
     for _ in range(n):
-        k = rng.choice([0, 0, 0, 1, 1, 2, 3])
-        nid += 2
+        k = rng.choice([0, 0, 0, 1, 1, 1, 2, 3, 7])
+        nid += 4
         if k == 0:
             entries.append([0, nid])
         elif k == 1:
-            entries.append([1, nid + (1 if rng.random() < 0.25 else 0)])
+            r = rng.random()
+            entries.append([1, nid + (1 if r < 0.2 else 3 if r < 0.35 else 0)])
         elif k == 2:
             entries.append([2, nid])
-        else:
+        elif k == 3:
             entries.append([3, nid + 1])
-    # 6: the producer never finishes.  A failing source cancels the still pending item futures
-    # (cancellation is C06's subject), so scripts with pending futures end normally or hang.
-    has_pending = any(e[0] == 1 for e in entries)
-    entries.append([rng.choice([4, 4, 4, 6] if has_pending else [4, 4, 4, 5, 6])])
+        else:
+            entries.append([7, nid + 3])
+    entries.append([rng.choice([4, 4, 4, 5, 6])])
     return entries
 
 
@@ -268,6 +271,16 @@ def run_sq(entries):
     from graphql.execution.incremental.work_queue import WorkResult
 
     loop = asyncio.new_event_loop()
+
+    class CountingFuture(asyncio.Future):
+        """Harness-owned future that knows whether someone besides `push` subscribed to it."""
+
+        n_cb = 0
+
+        def add_done_callback(self, fn, *, context=None):
+            self.n_cb += 1
+            return super().add_done_callback(fn, context=context)
+
     futs = []  # (id, future) of pending futures in script order
     failed = []
     hang = None
@@ -287,7 +300,7 @@ def run_sq(entries):
             if k == 0:
                 await queue.push(WorkResult(e[1]))
             elif k == 1:
-                f = loop.create_future()
+                f = CountingFuture(loop=loop)
                 futs.append((e[1], f))
                 await queue.push(f)
             elif k == 2:
@@ -298,6 +311,10 @@ def run_sq(entries):
                 f = loop.create_future()
                 f.set_exception(RuntimeError("item"))
                 failed.append(f)
+                await queue.push(f)
+            elif k == 7:
+                f = loop.create_future()
+                f.cancel()
                 await queue.push(f)
             elif k == 4:
                 return
@@ -316,17 +333,20 @@ def run_sq(entries):
             quiesce()
             ended = False
             while not task.done():
-                nxt = next(((i, f) for i, f in futs if not f.done()), None)
+                # the future the consumer subscribed to (push itself adds one callback)
+                nxt = next(((i, f) for i, f in futs if not f.done() and f.n_cb >= 2), None)
                 if nxt is None:
                     out.append("park")
                     ended = True
                     break
                 i, f = nxt
                 out.append(f"wait {i}")
-                if i % 2 == 0:
-                    f.set_result(WorkResult(i))
-                else:
+                if i % 4 == 1:
                     f.set_exception(RuntimeError("item"))
+                elif i % 4 == 3:
+                    f.cancel()
+                else:
+                    f.set_result(WorkResult(i))
                 quiesce()
             if ended:
                 task.cancel()
@@ -369,7 +389,7 @@ def enc_sq(entries):
         if e[0] == 6:
             break  # the model sees an empty queue: park
         n += 1
-        toks += [e[0]] + ([e[1]] if e[0] < 4 else [])
+        toks += [e[0]] + ([e[1]] if e[0] < 4 or e[0] == 7 else [])
     return "sq " + " ".join(str(t) for t in [n] + toks)
 
 
@@ -394,8 +414,9 @@ def _work_sq(args):
             # P6 at the queue level, judged on the implementation: delivered values are exactly the
             # scripted item values in order, up to the first failure
             want = []
+            source_fails = c[-1][0] == 5
             for e in c:
-                if e[0] in (0, 2) or (e[0] == 1 and e[1] % 2 == 0):
+                if e[0] in (0, 2) or (e[0] == 1 and e[1] % 4 not in (1, 3) and not source_fails):
                     want.append(e[1])
                 else:
                     break
@@ -441,16 +462,21 @@ def _work_e2e(args):
         rep.stats["e2e_streams"] = rep.stats.get("e2e_streams", 0) + 1
         if st["late_pending"] or st["completed_err"]:
             rep.nontrivial += 1
-        lines.append(E.enc_stream(case, init, subs))
-        meta.append((case, init, subs))
+        line, id_names = E.enc_stream(case, init, subs, want_ids=True)
+        lines.append(line)
+        meta.append((case, init, subs, id_names, list(info.get("pruned_undelivered") or [])))
     if driver and lines:
-        for (case, init, subs), verdict in zip(meta, driver.run(lines)):
+        for (case, init, subs, id_names, pruned), verdict in zip(meta, driver.run(lines)):
             if verdict != "ok":
                 clause = verdict.split()[0]
+                fp = f"e2e-{clause}"
+                if clause == "P3b" and E.classify_p3b(verdict, id_names, init, subs, pruned):
+                    fp = E.KNOWN_PRUNE_FP
                 rep.failures.append(
                     Failure(
-                        f"e2e-{clause}",
-                        f"response stream violates {verdict}",
+                        fp,
+                        f"response stream violates {verdict}"
+                        + (f"; WorkQueue pruned a promoted group holding an undelivered shared task: {pruned}" if fp == E.KNOWN_PRUNE_FP else ""),
                         {"kind": "e2e", "case": case},
                         [init] + subs,
                         "Spec.Protocol.protocolOk",
@@ -458,7 +484,7 @@ def _work_e2e(args):
                     )
                 )
     if meta:
-        case, init, subs = meta[len(meta) // 2]
+        case, init, subs = meta[len(meta) // 2][:3]
         rep.samples.append({"e2e_case": case, "payloads": len(subs) + 1})
     return rep
 
